@@ -139,6 +139,12 @@ _LINK_TREE = {"real": {"t": "d", "ch": {"f.txt": {"t": "f", "c": ""}}}, "build":
 _NEG_TREE2 = {"a.log": {"t": "f", "c": ""}, "sub": {"t": "d", "ch": {"a.log": {"t": "f", "c": ""}, "b.log": {"t": "f", "c": ""}}}}
 
 OPEN = [
+    {"id": "K07", "property": "C14", "signature": "C14/format/short-unit-on-decimal-base-reads-back-binary",
+     "what": "FORMAT_SIZE with the short-unit flag `s` on a decimal base (`%.2ds`, `skb`, `smb`): 1678123 is shown as `1.68M`, and by the "
+             "documented unit table a bare `M` is 1024^2 - read back as a literal the text is 1761607 bytes, 5 % off; the short form "
+             "drops the only letter that told the bases apart. What a decimal short unit should look like is a format decision, "
+             "not a small repair (with `c` the documentation itself specifies the mismatch)",
+     "pinned_case": {"kind": "format", "prec": 2, "space": False, "flags": "ds", "unit": "", "upper": False, "sizes": [24576, 1678123, 200000000]}},
     {"id": "K06", "property": "C20", "signature": "C20/git/over-ignore/path-negation-after-basename-wildcard",
      "what": "gitignore `?.log` (or `a*`) followed by `!sub/a.log`: git re-includes sub/a.log, fselect omits it - while parsing the "
              "file libgit2 (does_negate_rule) keeps a negation only if an earlier pattern of the same file wild-matches the negated "
